@@ -30,6 +30,8 @@ def run(ctx, w):
     # intermediate that makes a sequence "unimplemented" (collect on 0x20-0x2F, 0x3C-0x3F)
     c03.run_transition(ctx, w, tb, only_states=None, rule="S1")
     ctx.floor("S1", 14 * 20, "transition cells")
+    if ctx.tier == "thorough":
+        c03.pointwise(ctx, w, tb, c03.roles(tb), rule="S1x")
     ctx.rule("S1a", "payload characters of a string are consumed: no function, no print, state unchanged")
     for st in STRING_STATES:
         for a in tb.atoms:
